@@ -49,12 +49,14 @@ def occurrences(s):
 
 
 def requests(body, variant):
-    """variant: 0 plain; 1 with return value; 2 with a constant and a parameter"""
+    """variant: 0 plain; 1 with return value; 2 with a constant and a parameter; 3 bare: no constant, no parameter and no
+    variable declared in front of the body (nothing at all is in scope at the first statements)"""
     consts = [CONST] if variant == 2 else []
     params = [PARAM] if variant == 2 else []
     ret = R if variant == 1 else None
-    src = skel.render_fn(render_uses(body), params=params, prelude=[('decl', R, [])], consts=consts, with_return=ret)
-    mbody = [('decl', R, [])] + [occurrences(s) for s in body]
+    prelude = [] if variant == 3 else [('decl', R, [])]
+    src = skel.render_fn(render_uses(body), params=params, prelude=prelude, consts=consts, with_return=ret)
+    mbody = list(prelude) + [occurrences(s) for s in body]
     if variant == 1:
         mbody = mbody + [('label', skel.RETURN), ('use', [R])]
     msexp = "(fn (consts%s) (params%s) %s)" % ("".join(" %d" % c for c in consts), "".join(" %d" % p for p in params),
@@ -389,13 +391,16 @@ def main():
     for n in range(0, maxn + 1):
         for b in skel.enum_lists(n, 2, ATOMS, compound):
             cases.append((b, 0))
+    for n in range(0, maxn + 1):
+        for b in skel.enum_lists(n, 2, ATOMS, compound):
+            cases.append((b, 3))
     n_exh = len(cases)
     for i in range(60000 if thorough else 4000):
-        cases.append((random_body(rng, 1 + rng.below(14 if i % 3 else 30), 3, 2 + rng.below(2), 1 + rng.below(3)), i % 3))
+        cases.append((random_body(rng, 1 + rng.below(14 if i % 3 else 30), 3, 2 + rng.below(2), 1 + rng.below(3)), i % 4))
     for i in range(60000 if thorough else 4000):
         cases.append((valid_body(rng, 2 + rng.below(16), 3, [R], [10, 10], []), i % 3))
     for i in range(40000 if thorough else 3000):
-        cases.append((multi_goto_body(rng, [10, 10]), i % 3))
+        cases.append((multi_goto_body(rng, [10, 10]), i % 4))
     reqs = [requests(b, v) for (b, v) in cases]
     m = run_model([r[1] for r in reqs])
     # keep label-correct bodies only (the property is stated on those; E400/E420 gotos/labels are poisoned
